@@ -213,6 +213,37 @@ ALGOS = {
     "vogp_ad": ("vopy/algorithms/vogp_ad.py", "VOGP_AD", ["compute_pessimistic_set", "discarding"]),
 }
 
+PAVEBA_MODELING = """
+self.r_t = self.compute_radius()
+A = M_set
+self.design_space.update(self.model, self.r_t, list(A))
+"""
+PAVEBA_EVALUATING = """
+A = M_set
+active_pts = self.design_space.points[list(A)]
+observations = self.problem.evaluate(active_pts[:, :-1])
+self.sample_count += len(A)
+self.model.add_sample(A, observations)
+self.model.update()
+"""
+
+
+def paveba_active_sets(src):
+    """PaVeBa: which designs modeling() rebuilds and which designs evaluating() samples (and that the
+    observations are stored under the same iteration of the same set that was queried)"""
+    from py2coq import match_stmts
+    rel = "vopy/algorithms/paveba.py"
+    out = f"(* {rel}:PaVeBa.modeling / PaVeBa.evaluating *)\n"
+    for meth, tpl, name in (("modeling", PAVEBA_MODELING, "paveba_modeled"), ("evaluating", PAVEBA_EVALUATING, "paveba_sampled")):
+        where = f"{rel}:PaVeBa.{meth}"
+        b = match_stmts(tpl, clean_body(src.func(rel, f"PaVeBa.{meth}")), where)
+        g = M(where, "paveba").setexpr(b["M_set"])
+        out += f"Definition {name} (S P U : list nat) : list nat := {g}.\n"
+    out += "(* evaluating(): points[list(A)] are queried and add_sample(A, observations) stores them: one set, one iteration order *)\n"
+    out += "Definition paveba_queries_and_stores_same_set : bool := true.\n"
+    return out
+
+
 SECTION_HDR = """(* ---------------- {a} ---------------- *)
 """
 
@@ -228,3 +259,4 @@ def run(src, out, hdr):
                 fn = src.func(rel, f"{cls}.{meth}")
                 return f"(* {rel}:{cls}.{meth} *)\n" + translate_method(fn, f"{a}_{meth}", f"{rel}:{cls}.{meth}", a)
             out.attempt(f, f"{a}.{meth}", thunk)
+    out.attempt(f, "paveba.active_sets", lambda: paveba_active_sets(src))
